@@ -1,8 +1,12 @@
 (* C27 — Higher-priority subscriptions are served first.  Statements only.
 
-   Model: the shared subscription system model C21/Sys.v; C27's observation and oracle are in
-   C27/Model.v.  [sys_tick_g prio_order stick] is Subscriptions::tick with the priority sort of
-   the code and an arbitrary per-subscription tick function [stick]. *)
+   Model: the shared subscription system model C21/Sys.v plus the ModifySubscription service
+   (C27/Model.v: [hop], [hstep_g]); C27's observation and oracle are in C27/Model.v.
+   [sys_tick_g prio_order stick] is Subscriptions::tick with the priority sort of the code and an
+   arbitrary per-subscription tick function [stick].  A history ([case]) is an operation list on
+   ONE Subscriptions instance: writes, timer ticks, publish requests, create / delete of
+   subscriptions and items, republish, set publishing mode and ModifySubscription (which changes
+   a priority between two scheduling rounds). *)
 From Coq Require Import List ZArith.
 Import ListNotations.
 From OV Require Import C21.SysLemmas C27.Model C27.Proofs.
@@ -33,15 +37,42 @@ Proof. exact sub_tick_keeps. Qed.
 Print Assumptions C27_subscription_tick_keeps_priority.
 
 (* ... and every state reached by any history (any prefix of any operation list: writes, ticks,
-   publish requests, create/delete of items and subscriptions, republish, publishing mode) has
-   distinct subscription ids, so C27_round applies to every round of every history. *)
+   publish requests, create/delete of items and subscriptions, republish, publishing mode,
+   ModifySubscription) has distinct subscription ids, so C27_round applies to every round of
+   every history. *)
 Theorem C27_reachable : forall c k y',
-  run_state (init c) 0 (firstn k (c_ops c)) = Some y' -> NoDup (ids (y_subs y')).
+  run_state (hinit c) 0 (firstn k (h_ops c)) = Some y' -> NoDup (ids (y_subs y')).
 Proof. exact reachable_distinct_ids. Qed.
 Print Assumptions C27_reachable.
 
-(* The oracle used in the correspondence run (priorities as requested in the case, pending
-   counts and responses as observed) holds on the model's output for every case. *)
+(* In every state reached by any history, the priority every live subscription is scheduled with
+   is the one the client requested LAST — in its CreateSubscription or in a later
+   ModifySubscription ([prio_at], a fold over the operations alone).  By induction over the
+   history. *)
+Theorem C27_priority_follows_requests : forall c k y',
+  run_state (hinit c) 0 (firstn k (h_ops c)) = Some y' ->
+  forall s, In s (y_subs y') -> s_prio s = prio_at (firstn k (h_ops c)) (s_id s).
+Proof. exact reachable_priorities. Qed.
+Print Assumptions C27_priority_follows_requests.
+
+(* Every scheduling round of every history: a round started after any prefix of any history (on
+   the subscriptions of the state reached, whatever clock, request queue and retransmission queue
+   the round finds) answers in non-increasing order of the priorities requested last, and an
+   answered subscription means that no live subscription with a higher requested priority keeps a
+   notification. *)
+Theorem C27_history_round : forall c k y y2 timer y' rs,
+  run_state (hinit c) 0 (firstn k (h_ops c)) = Some y ->
+  y_subs y2 = y_subs y ->
+  sys_tick y2 timer = Some (y', rs) ->
+  let P := prio_at (firstn k (h_ops c)) in
+  non_increasing (map P (resp_subs rs)) = true /\
+  (forall i s', In i (resp_subs rs) -> In s' (y_subs y') -> P i < P (s_id s') -> s_notifs s' = []).
+Proof. exact history_round. Qed.
+Print Assumptions C27_history_round.
+
+(* The oracle used in the correspondence run (priorities as requested last in the case at the
+   time of each operation, pending counts and responses as observed after every operation) holds
+   on the model's output for every history. *)
 Theorem C27_oracle : forall c, valid c -> known c = 0 -> oracle c (run c) = true.
 Proof. intros c _ _. apply oracle_holds. Qed.
 Print Assumptions C27_oracle.
@@ -51,3 +82,15 @@ Print Assumptions C27_oracle.
 Theorem C27_legacy_refuted : exists c, valid c /\ oracle c (Legacy.run c) = false.
 Proof. exists witness. split; [exact I | exact legacy_refuted]. Qed.
 Print Assumptions C27_legacy_refuted.
+
+(* The oracle sees priorities changed between rounds: a server that leaves the old priority in
+   place on ModifySubscription (A 10 -> 250 while A and C (100) have data and one request is
+   queued: it answers C) is rejected, the model (answers A) is accepted. *)
+Theorem C27_stale_priority_refuted :
+  exists c, valid c /\ oracle c (NoPrioChange.run c) = false /\ oracle c (run c) = true.
+Proof.
+  exists witness_modify. split; [exact I|]. split.
+  - exact (proj2 no_prio_change_refuted).
+  - exact (proj2 witness_modify_order).
+Qed.
+Print Assumptions C27_stale_priority_refuted.
